@@ -32,7 +32,7 @@ func obCaps(c *rules.Ctx, id string) {
 
 func init() {
 	Registry["C03"] = &Spec{
-		Explanation: "Decides structural necessary conditions of 'a fixed-amount send moves exactly that amount or the whole script fails': (1) the exact-draw function returns success only on the edge of a comparison between the amount actually drawn (the result of the draw traversal) and the amount requested (its own parameter, the one it passed to the traversal) that excludes 'less', and builds the insufficient-funds error otherwise; (2) the destination traversal receives the very amount that was requested from the exact draw (fixed mode) or the result of the send-all draw; (3) an allotment source draws each share with the exact function (S2 + the draw traversal's allotment arm); (4) no error is dropped and an error is always accompanied by zero results up to RunWithFeatureFlags; (5) negative amounts are rejected by a strict comparison, so a send of 0 is accepted.",
+		Explanation: "Decides structural necessary conditions of 'a fixed-amount send moves exactly that amount or the whole script fails': (1) the exact-draw function returns success only on the edge of a comparison between the amount actually drawn (the result of the draw traversal) and the amount requested (its own parameter, the one it passed to the traversal) that excludes 'less', and builds the insufficient-funds error otherwise; (2) the destination traversal receives the very amount that was requested from the exact draw (fixed mode) or the result of the send-all draw; (3) an allotment source draws each share with the exact function (S2 + the draw traversal's allotment arm); (4) no error is dropped and an error is always accompanied by zero results up to RunWithFeatureFlags; (5) negative amounts are rejected by a strict comparison, so a send of 0 is accepted; (6) where a draw function may hand back the very number it was given, the caller does not read that result after rewriting the number in place.",
 		NotDecided:  []string{"'fails only when the funds are missing' (no spurious failure) and 'never more than n': both are the arithmetic contract of the draw family", "that the reconciler preserves totals (an identity over two integer sequences)"},
 		Assumptions: []string{A1, A3, A4},
 		Run: func(c *rules.Ctx) {
@@ -53,6 +53,8 @@ func init() {
 			obGate(c, "C03.10", r03)
 			ob5 := c.R.Ob("C03.5", "ctrl/negative", "only strictly negative amounts are rejected: a send of 0 goes through", 2)
 			c.NegativeTestStrict(ob5, "NegativeAmountErr")
+			ob11 := c.R.Ob("C03.11", "effects/returned-arg", "a draw result that may be the very number passed in is not read after that number is rewritten in place", 1)
+			c.ReturnedArgumentNotRewritten(ob11, relInterp, relUtils)
 		},
 	}
 	Registry["C04"] = &Spec{
